@@ -684,6 +684,35 @@ func cmdReplay(args []string) int {
 		fmt.Fprintln(os.Stderr, err)
 		return 2
 	}
+	if k, _ := rec["kind"].(string); strings.HasPrefix(k, "bounded stand-in") {
+		// a failing input found by a bounded stand-in: re-run that test against the repository
+		file, _ := rec["test"].(string)
+		run, _ := rec["run"].(string)
+		repo := "/repo"
+		if len(args) > 1 {
+			repo = args[1]
+		}
+		pkg := "."
+		if specs, err := loadPropSpecs(); err == nil {
+			for _, ps := range specs {
+				for _, bt := range ps.Tests {
+					if bt.File == file && bt.Run == run {
+						pkg = bt.Pkg
+					}
+				}
+			}
+		}
+		out, cases, input, ok := runBoundedTest(repo, BoundedTest{Pkg: pkg, File: file, Run: run})
+		fmt.Printf("bounded stand-in %s:%s against %s: %d cases, passed=%v\n", file, run, repo, cases, ok)
+		if !ok {
+			fmt.Printf("failing input: %s\n", input)
+			if input == "" {
+				fmt.Println(out)
+			}
+			return 1
+		}
+		return 0
+	}
 	fmt.Printf("obligation %v at %v\n  %v\n", rec["obligation"], rec["at"], rec["what"])
 	q, _ := rec["query"].(string)
 	qd, err := os.ReadFile(q)
